@@ -108,3 +108,17 @@ def run(ctx):
     ctx.floor('C02.D5', 6)
     ctx.floor('C02.D6', 8)
     ctx.floor('C02.D7', 3)
+
+
+def run_thorough(ctx):
+    """Padding function on positions 0..1023 (128 periods of the congruence
+    domain) instead of 0..23."""
+    cm = CodecModel(ctx.prog)
+    for al in (1, 2, 4, 8):
+        bad = []
+        for x in range(0, 1024):
+            n, b = cm.pad_length(al, x)
+            if n != (-x) % al or b != b'\0' * n:
+                bad.append(x)
+        ctx.ob('C02.D3', cm.pad_builder, 'align%d:0..1023' % al, not bad,
+               'padding wrong at positions %s' % bad[:5])
